@@ -24,6 +24,8 @@ type ExprCtx struct {
 	Alias map[ssa.Value]string
 	depth int
 	phis  map[*ssa.Phi]bool
+	// sumDepth: nesting of guard summaries (EdgeLits looks into validators it meets)
+	sumDepth int
 }
 
 func Expr(v ssa.Value) string { return (&ExprCtx{}).Expr(v) }
@@ -771,24 +773,287 @@ func (c *ExprCtx) EdgeLits(b *ssa.BasicBlock, k int) []Lit {
 	if !ok {
 		return nil
 	}
+	if conj, _, isSC := c.shortCircuit(iff.Cond, k == 0); isSC {
+		return conj
+	}
 	l, ok := c.CondLit(iff.Cond)
 	if !ok {
 		return nil
 	}
+	var out []Lit
 	if k == 0 {
-		return []Lit{l}
+		out = []Lit{l}
+	} else {
+		out = l.Not()
 	}
-	return l.Not()
+	return append(out, c.guardSummary(iff.Cond, k == 0)...)
 }
+
+// shortCircuit handles a condition that is the value of `a && b` / `a || b` (go/ssa builds a phi
+// for these outside plain if-conditions, e.g. in `switch { case a && b: }`). On the edge where all
+// operands are decided (&& true, || false) it returns the conjunction of their literals; on the
+// other edge the alternatives, one of which holds.
+func (c *ExprCtx) shortCircuit(cond ssa.Value, truth bool) (conj []Lit, disj [][]Lit, ok bool) {
+	for {
+		u, isU := cond.(*ssa.UnOp)
+		if !isU || u.Op != token.NOT {
+			break
+		}
+		cond, truth = u.X, !truth
+	}
+	phi, isPhi := cond.(*ssa.Phi)
+	if !isPhi || (phi.Comment != "&&" && phi.Comment != "||") || c.sumDepth > 3 {
+		return nil, nil, false
+	}
+	isAnd := phi.Comment == "&&"
+	blk := phi.Block()
+	type operand struct {
+		onEdge  []Lit // literals that hold when this operand decided the result early (edge into the phi)
+		other   []Lit // literals that hold when it did not
+		last    bool
+		lastVal ssa.Value
+	}
+	var ops []operand
+	for i, e := range phi.Edges {
+		pred := blk.Preds[i]
+		if k, isC := e.(*ssa.Const); isC && k.Value != nil && isConstBool(e, !isAnd) {
+			// decided early in pred: pred ends with an If one of whose edges enters the phi block
+			if len(pred.Instrs) == 0 {
+				return nil, nil, false
+			}
+			if _, isIf := pred.Instrs[len(pred.Instrs)-1].(*ssa.If); !isIf || len(pred.Succs) != 2 {
+				return nil, nil, false
+			}
+			into := 0
+			if pred.Succs[1] == blk {
+				into = 1
+			}
+			ops = append(ops, operand{onEdge: c.EdgeLits(pred, into), other: c.EdgeLits(pred, 1-into)})
+			continue
+		}
+		ops = append(ops, operand{last: true, lastVal: e})
+	}
+	decidedAll := truth == isAnd // && true / || false: every operand has the value `truth`
+	for _, o := range ops {
+		if o.last {
+			l, okL := c.CondLit(o.lastVal)
+			var pos, neg []Lit
+			if okL {
+				pos, neg = []Lit{l}, l.Not()
+			}
+			if !isAnd {
+				pos, neg = neg, pos // for ||: "all decided" means the operand is false
+			}
+			// pos: literals when the last operand has the value that keeps the chain going to the end
+			if decidedAll {
+				conj = append(conj, pos...)
+			} else {
+				disj = append(disj, neg)
+			}
+			continue
+		}
+		if decidedAll {
+			conj = append(conj, o.other...)
+		} else {
+			disj = append(disj, o.onEdge)
+		}
+	}
+	return conj, disj, true
+}
+
+// guardSummary: the condition tests the outcome of a module helper - `validate(req) == nil`,
+// `if !allowed(x)` - : the literals the helper itself establishes on every path to that outcome
+// (over its parameters, rendered as the caller's arguments) hold on this edge as well. A guard
+// moved from a handler into a validation helper thus still counts as that guard.
+func (c *ExprCtx) guardSummary(cond ssa.Value, truth bool) []Lit {
+	cal, cc, isOutcome, key, ok := c.outcomeCall(cond, truth)
+	if !ok {
+		return nil
+	}
+	if v, ok := guardSummaryCache[key]; ok {
+		return v
+	}
+	guardSummaryCache[key] = nil // recursion guard
+	// candidates: every literal some edge of the helper establishes
+	var cands []Lit
+	seen := map[string]bool{}
+	edge := map[*ssa.BasicBlock][][]Lit{}
+	for _, b := range cal.Blocks {
+		if b == cal.Recover {
+			continue
+		}
+		ls := make([][]Lit, len(b.Succs))
+		for k := range b.Succs {
+			ls[k] = cc.EdgeLits(b, k)
+			for _, l := range ls[k] {
+				if s := l.String(); !seen[s] {
+					seen[s] = true
+					cands = append(cands, l)
+				}
+			}
+		}
+		edge[b] = ls
+	}
+	var out []Lit
+	for _, l := range cands {
+		if len(cands) > 64 {
+			break
+		}
+		wk := &Walk{Target: isOutcome, EdgeOK: func(b *ssa.BasicBlock, k int) bool {
+			for _, e := range edge[b][k] {
+				if e.Implies(l) {
+					return false
+				}
+			}
+			return true
+		}}
+		if wk.Find(entry(cal)) == nil {
+			out = append(out, l)
+		}
+	}
+	guardSummaryCache[key] = out
+	return out
+}
+
+// EdgeEstablishes: the edge b→b.Succs[k] establishes the disjunction `clause`: one of its own
+// literals implies one of the clause's, or the edge is the outcome edge of a module helper in
+// which that outcome is unreachable without an edge that establishes the clause.
+func (c *ExprCtx) EdgeEstablishes(b *ssa.BasicBlock, k int, clause []Lit) bool {
+	for _, l := range c.EdgeLits(b, k) {
+		for _, need := range clause {
+			if l.Implies(need) {
+				return true
+			}
+		}
+	}
+	if len(b.Instrs) == 0 {
+		return false
+	}
+	iff, ok := b.Instrs[len(b.Instrs)-1].(*ssa.If)
+	if !ok {
+		return false
+	}
+	if _, disj, isSC := c.shortCircuit(iff.Cond, k == 0); isSC && len(disj) > 0 {
+		// one of the alternatives holds: each must establish the clause
+		all := true
+		for _, alt := range disj {
+			okAlt := false
+			for _, l := range alt {
+				for _, need := range clause {
+					if l.Implies(need) {
+						okAlt = true
+					}
+				}
+			}
+			if !okAlt {
+				all = false
+			}
+		}
+		return all
+	}
+	cal, cc, isOutcome, _, ok := c.outcomeCall(iff.Cond, k == 0)
+	if !ok {
+		return false
+	}
+	wk := &Walk{Target: isOutcome, EdgeOK: func(bb *ssa.BasicBlock, kk int) bool { return !cc.EdgeEstablishes(bb, kk, clause) }}
+	return wk.Find(entry(cal)) == nil
+}
+
+// outcomeCall recognises a condition that tests the outcome of a statically resolved module
+// helper: `h(args) == nil` / `!= nil` on an error result (outcome: nil error) or a boolean h(args).
+// It returns the helper, a context that renders the helper's parameters as the caller's
+// arguments, and the predicate "this return may produce the outcome".
+func (c *ExprCtx) outcomeCall(cond ssa.Value, truth bool) (cal *ssa.Function, cc *ExprCtx, isOutcome func(ssa.Instruction) bool, key string, ok bool) {
+	if c.sumDepth >= 2 {
+		return
+	}
+	for {
+		u, isU := cond.(*ssa.UnOp)
+		if !isU || u.Op != token.NOT {
+			break
+		}
+		cond, truth = u.X, !truth
+	}
+	var call *ssa.Call
+	idx := 0
+	outcome := "" // "nil" | "true" | "false"
+	switch x := cond.(type) {
+	case *ssa.BinOp:
+		if x.Op != token.EQL && x.Op != token.NEQ {
+			return
+		}
+		v := x.X
+		if isNilConst(x.X) {
+			v = x.Y
+		} else if !isNilConst(x.Y) {
+			return
+		}
+		if !isErrorType(v.Type()) {
+			return
+		}
+		if (x.Op == token.EQL) != truth {
+			return // the error-present edge: nothing is known
+		}
+		outcome = "nil"
+		if ex, isE := v.(*ssa.Extract); isE {
+			v, idx = ex.Tuple, ex.Index
+		}
+		call, _ = v.(*ssa.Call)
+	case *ssa.Call:
+		call = x
+		if truth {
+			outcome = "true"
+		} else {
+			outcome = "false"
+		}
+		if b, isB := x.Type().Underlying().(*types.Basic); !isB || b.Kind() != types.Bool {
+			return
+		}
+	}
+	if call == nil || call.Call.IsInvoke() {
+		return
+	}
+	cal = StaticCallee(&call.Call)
+	if cal == nil || cal.Blocks == nil || !inModule(cal) || len(cal.Params) != len(call.Call.Args) || len(cal.Blocks) > 200 {
+		return
+	}
+	args := make([]string, len(call.Call.Args))
+	for i, a := range call.Call.Args {
+		args[i] = c.Expr(a)
+	}
+	key = cal.String() + "|" + outcome + "|" + itoa(idx) + "|" + strings.Join(args, ",")
+	cc = &ExprCtx{Alias: map[ssa.Value]string{}, sumDepth: c.sumDepth + 1}
+	for i, p := range cal.Params {
+		cc.Alias[p] = args[i]
+	}
+	isOutcome = func(in ssa.Instruction) bool {
+		ret, isR := in.(*ssa.Return)
+		if !isR || idx >= len(ret.Results) {
+			return false
+		}
+		rv := retVal(ret, idx)
+		switch outcome {
+		case "nil":
+			return !provablyNonNilError(rv, ret.Block(), 0)
+		case "true":
+			return !isConstBool(rv, false)
+		default:
+			return !isConstBool(rv, true)
+		}
+	}
+	return cal, cc, isOutcome, key, true
+}
+
+var guardSummaryCache = map[string][]Lit{}
 
 // ---------- literal constructors for rules ----------
 
-func LBool(a string) Lit          { return Lit{Kind: "bool", A: a} }
-func LNotBool(a string) Lit       { return Lit{Kind: "bool", A: a, Neg: true} }
-func LEq(a, b string) Lit         { return normEq(a, b, false) }
-func LNe(a, b string) Lit         { return normEq(a, b, true) }
-func LNil(a string) Lit           { return Lit{Kind: "eq", A: a, B: "nil"} }
-func LNotNil(a string) Lit        { return Lit{Kind: "eq", A: a, B: "nil", Neg: true} }
+func LBool(a string) Lit           { return Lit{Kind: "bool", A: a} }
+func LNotBool(a string) Lit        { return Lit{Kind: "bool", A: a, Neg: true} }
+func LEq(a, b string) Lit          { return normEq(a, b, false) }
+func LNe(a, b string) Lit          { return normEq(a, b, true) }
+func LNil(a string) Lit            { return Lit{Kind: "eq", A: a, B: "nil"} }
+func LNotNil(a string) Lit         { return Lit{Kind: "eq", A: a, B: "nil", Neg: true} }
 func LIntEq(t string, k int64) Lit { return Lit{Kind: "int", Terms: t, Lo: k, Hi: k} }
 func LIntNe(t string, k int64) Lit { return Lit{Kind: "int", Terms: t, IsNE: true, NE: k} }
 func LIntLe(t string, k int64) Lit { return Lit{Kind: "int", Terms: t, Lo: negInf, Hi: k} }
